@@ -293,7 +293,7 @@ fn exec(sc: &Scn, render: bool) -> RunOutput {
 pub fn run(args: &Args) -> Report {
     let mut rep = Report::new("C16", &args.tier, "psim", "model_checking");
     let thorough = args.thorough();
-    let rounds = if thorough { 5 } else { 3 };
+    let rounds = if thorough { 5 } else { 4 };
     let mut cases = Vec::new();
     let mut cfgs: Vec<(u64, u64)> = Vec::new();
     for i in [1000u64, 2000, 3000] {
